@@ -58,6 +58,11 @@ type Cfg struct {
 	VictimShare int `json:"victim_share"`
 	// one in Forged inbound datagrams is preceded by a forged one (live receiver index, bad tag) for the same peer
 	Forged int `json:"forged_one_in"`
+	// one in Junk inbound datagrams is preceded by a junk datagram for the same peer/socket: too short, unknown
+	// receiver index, unknown type, handshake message of a wrong length, replayed datagram, keepalive, authenticated
+	// message whose inner packet is malformed or has a foreign source, (JunkExpired) message under an expired keypair
+	Junk        int  `json:"junk_one_in"`
+	JunkExpired bool `json:"junk_expired"`
 	// dedicated run: this many isolated temporary receive errors, each followed by a small inbound batch (1/3 s each)
 	RecvErrs int `json:"recv_errs"`
 	// this many extra goroutines flush the peers concurrently with the TUN reader (keepalives, UAPI sets) during
@@ -372,7 +377,76 @@ func runCase(c Cfg) Case {
 		cs.Out[pi].N++
 		outPlan = append(outPlan, item{pi, stress.Packet([4]byte{10, 9, 9, 9}, [4]byte{10, 0, byte(pi), 2}, pktLen2(r, c), uint64(pi), uint64(cs.Out[pi].N))})
 	}
-	nForged := 0
+	// (JunkExpired) peer 0 gets a second session; its first keypair is aged beyond RejectAfterTime but keeps its index
+	var oldSess *ref.Session
+	if c.JunkExpired && !special && len(peers) > 0 {
+		pk0 := cosim.NoisePK(peers[0].Pub)
+		oldSess = peers[0].Session()
+		w.Dev.VerifShiftKeypairAges(pk0, 200*time.Second)
+		w.Dev.VerifShiftHandshakeTimes(pk0, 6*time.Second)
+		out := w.TunIn(stress.Packet([4]byte{10, 9, 9, 9}, [4]byte{10, 0, 0, 2}, 40, 0, 0))
+		init := cosim.FindInitiation(out.Sent)
+		if init == nil {
+			return fail("no initiation after the keypair expired")
+		}
+		if _, _, err := w.AnswerInitiation(peers[0], init.Data, peers[0].Addr); err != nil {
+			return fail(err.Error())
+		}
+		w.Take()
+		cs.Out[0].N0 = w.Dev.VerifPeer(pk0).Current.SendNonce
+	}
+	nForged, nJunk := 0, 0
+	lastGenuine := make([][]byte, len(peers))
+	junk := func(pi int) []byte {
+		sess := peers[pi].Session()
+		mk := func(n int, t byte) []byte {
+			b := make([]byte, n)
+			for i := range b {
+				b[i] = byte(r.Intn(256))
+			}
+			b[0], b[1], b[2], b[3] = t, 0, 0, 0
+			return b
+		}
+		kind := r.Intn(12)
+		if kind == 11 && (oldSess == nil || pi != 0) {
+			kind = r.Intn(11)
+		}
+		switch kind {
+		case 0: // shorter than the smallest message
+			return mk(4+r.Intn(28), []byte{4, 4, 1, 2, 3, 9}[r.Intn(6)])
+		case 1: // transport message for a receiver index nobody announced
+			b := sess.Transport(sess.SendCtr+uint64(1<<20), ref.Pad(stress.Packet([4]byte{10, 0, byte(pi), 2}, [4]byte{10, 9, 9, 9}, 60, uint64(pi), 0)))
+			binary.LittleEndian.PutUint32(b[4:8], 0xdead0000+uint32(r.Intn(65536)))
+			return b
+		case 2: // unknown message type
+			return mk(32+r.Intn(200), []byte{0, 5, 7, 255}[r.Intn(4)])
+		case 3: // handshake messages of a wrong length
+			return mk([]int{147, 149, 91, 93, 63, 65}[r.Intn(6)], []byte{1, 1, 2, 2, 3, 3}[r.Intn(6)])
+		case 4: // wrong length, other pairing
+			return mk([]int{92, 64, 148, 64, 148, 92}[r.Intn(6)], []byte{1, 1, 2, 2, 3, 3}[r.Intn(6)])
+		case 5: // replay of the last genuine datagram of this peer
+			if lastGenuine[pi] != nil {
+				return append([]byte{}, lastGenuine[pi]...)
+			}
+			return mk(20, 4)
+		case 6: // keepalive
+			return sess.Next(nil)
+		case 7: // authenticated, inner packet with an invalid IP version
+			in := stress.Packet([4]byte{10, 0, byte(pi), 2}, [4]byte{10, 9, 9, 9}, 60, uint64(pi), 0)
+			in[0] = 0x75
+			return sess.Next(ref.Pad(in))
+		case 8: // authenticated, inner packet shorter than an IPv4 header
+			return sess.Next(ref.Pad([]byte{0x45, 0, 0, 12, 0, 0, 0, 0, 64, 17, 0, 0}))
+		case 9: // authenticated, IPv4 total length beyond the message
+			in := stress.Packet([4]byte{10, 0, byte(pi), 2}, [4]byte{10, 9, 9, 9}, 60, uint64(pi), 0)
+			binary.BigEndian.PutUint16(in[2:], 900)
+			return sess.Next(ref.Pad(in))
+		case 10: // authenticated, source address that is not this peer's
+			return sess.Next(ref.Pad(stress.Packet([4]byte{10, 77, byte(pi), 2}, [4]byte{10, 9, 9, 9}, 60, uint64(pi), 0)))
+		default: // valid message under the aged keypair (index still announced, keypair beyond RejectAfterTime)
+			return oldSess.Next(ref.Pad(stress.Packet([4]byte{10, 0, 0, 2}, [4]byte{10, 9, 9, 9}, 60, 0, 0)))
+		}
+	}
 	for k := 0; k < c.NIn; k++ {
 		pi := pick()
 		cs.In[pi].N++
@@ -386,7 +460,13 @@ func runCase(c Cfg) Case {
 			inPlan = append(inPlan, item{pi, f})
 			nForged++
 		}
-		inPlan = append(inPlan, item{pi, peers[pi].Session().Next(ref.Pad(inner))})
+		if c.Junk > 0 && r.Intn(c.Junk) == 0 {
+			inPlan = append(inPlan, item{pi, junk(pi)})
+			nJunk++
+		}
+		g := peers[pi].Session().Next(ref.Pad(inner))
+		lastGenuine[pi] = g
+		inPlan = append(inPlan, item{pi, g})
 	}
 
 	pcfg := stress.Config{Procs: c.Procs, Hogs: c.Hogs, OneIn: c.OneIn, MaxSleep: time.Duration(c.MaxSleep) * time.Microsecond}
@@ -763,6 +843,7 @@ func runCase(c Cfg) Case {
 		}
 	}
 	info["forged"] = nForged
+	info["junk"] = nJunk
 	info["other"] = other
 	info["datagrams"] = len(sent)
 	info["written"] = len(written)
@@ -905,6 +986,10 @@ func genCfg(r *rand.Rand, i int, pkts int) Cfg {
 	if i%2 == 0 {
 		c.Forged = []int{4, 10, 40}[r.Intn(3)]
 	}
+	if i%3 != 2 {
+		c.Junk = []int{3, 8, 25}[r.Intn(3)]
+	}
+	c.JunkExpired = i%6 == 1
 	switch i % 6 {
 	case 1: // interface down/up with TUN traffic while down, then pipelined multi-peer batches
 		c.DownUp = true
